@@ -1,7 +1,7 @@
 """C11 -- the replay hash is XXH3-64 of exactly the file's bytes, however they arrive"""
 import random, re
 from .. import core, run as R, synth
-from .readerlib import both_modes, dump_dict
+from .readerlib import both_modes, dump_dict, readsched_corr
 
 ID = 'C11'
 TARGETS = ['theories/Properties/C11.vo']
@@ -54,4 +54,6 @@ def run(ctx):
         if d.get('g2.hash') != exp:
             corr.oracle_failures.append((cid, 'hash after the .slpp round trip is %s, expected %s' % (d.get('g2.hash'), exp), {'mode': 'slpp', 'fields': f}))
     corr.sample({'bytes': len(cases[0][1][0]) // 2, 'opts': cases[3][1][1], 'chunks': cases[3][1][2]})
+    # arbitrary read schedules (short reads of any size, Interrupted retries): same game, hash over exactly the consumed bytes
+    readsched_corr(ctx, corr, rng, [synth.emit(r) for r in reps[:(120 if thorough else 30)]], 3, faults=False, opts=('h',))
     return corr
